@@ -246,7 +246,13 @@ where
 
                 (None, None, vec![event])
             }
-            SpacesArgs::Auth { .. } => {
+            SpacesArgs::Auth { group_action, .. } => {
+                // Promoting or demoting members is not supported yet, reject such messages instead
+                // of applying them half-way.
+                if is_unsupported_action(group_action) {
+                    return Err(ManagerError::UnexpectedMessage(message.hash()));
+                }
+
                 let event = Group::process(self.clone(), &SpacesMessage::auth(message))
                     .await
                     .map_err(ManagerError::Group)?;
@@ -271,7 +277,11 @@ where
                     (None, None, vec![])
                 }
             }
-            SpacesArgs::SpaceUpdate { .. } => unimplemented!(),
+            // Rotating the entropy of a space is not supported yet, a remote peer can still send us
+            // such a message: reject it.
+            SpacesArgs::SpaceUpdate { .. } => {
+                return Err(ManagerError::UnexpectedMessage(message.hash()));
+            }
             // Received encrypted application data for a space.
             SpacesArgs::Application { space_id, .. } => {
                 let Some(space) = self.space(*space_id).await? else {
@@ -502,7 +512,9 @@ where
             };
 
             match message.borrow() {
-                SpacesArgs::Auth { .. } => SpacesMessage::auth(&message),
+                SpacesArgs::Auth { group_action, .. } if !is_unsupported_action(group_action) => {
+                    SpacesMessage::auth(&message)
+                }
                 _ => {
                     return Err(ManagerError::IncorrectMessageVariant(auth_message_id));
                 }
@@ -673,6 +685,14 @@ where
 
         Ok(messages)
     }
+}
+
+/// Returns `true` for auth actions which can't be processed by spaces yet.
+fn is_unsupported_action<C>(action: &crate::types::AuthGroupAction<C>) -> bool {
+    matches!(
+        action,
+        crate::types::AuthGroupAction::Promote { .. } | crate::types::AuthGroupAction::Demote { .. }
+    )
 }
 
 // Deriving clone on Manager will enforce generics to also impl Clone even though we are wrapping
